@@ -217,3 +217,45 @@ def use_hint(g2, h, r):
     if h == 1 and r0 <= 0:
         return (r1 - 1) % m
     return r1
+
+
+_ETA_TAB = {}
+
+
+def eta_accepts(eta, stream):
+    """number of accepted nibbles in the byte string (C-speed: translate each byte to its count, then count)"""
+    if eta not in _ETA_TAB:
+        lim = 15 if eta == 2 else 9
+        _ETA_TAB[eta] = bytes(((z & 15) < lim) + ((z >> 4) < lim) for z in range(256))
+    t = stream.translate(_ETA_TAB[eta])
+    return t.count(1) + 2 * t.count(2)
+
+
+def find_eta_seeds(eta, blocks, rng, want=2, budget=400000):
+    """(seed64, nonce) pairs whose first `blocks` SHAKE-256 blocks yield fewer than 256 accepted nibbles, i.e. the sampler
+    needs block number blocks+1 (eta = 4, blocks = 2: about 1 stream in 10^5)"""
+    out = []
+    base = bytes(rng.randrange(256) for _ in range(60))
+    for i in range(budget):
+        seed = base + i.to_bytes(4, "little")
+        nonce = i & 0xFFFF
+        st = hashlib.shake_256(seed + bytes([nonce & 255, nonce >> 8])).digest(136 * blocks)
+        if eta_accepts(eta, st) < 256:
+            out.append((seed, nonce))
+            if len(out) >= want:
+                break
+    return out
+
+
+def find_keygen_seed_eta_refill(p, blocks, rng, budget=60000):
+    """a 32-byte key generation seed for which some s1/s2 polynomial needs more than `blocks` SHAKE-256 blocks"""
+    base = bytes(rng.randrange(256) for _ in range(28))
+    for i in range(budget):
+        xi = i.to_bytes(4, "little") + base
+        inp = xi + (bytes([p.k, p.l]) if p.mldsa else b"")
+        rhop = hashlib.shake_256(inp).digest(128)[32:96]
+        for n in range(p.k + p.l):
+            st = hashlib.shake_256(rhop + bytes([n, 0])).digest(136 * blocks)
+            if eta_accepts(p.eta, st) < 256:
+                return xi
+    return None
